@@ -31,7 +31,7 @@ Next == (\E s \in Streams : PushOne(s) \/ ExtendTwo(s) \/ NotifyBatch(s)
                             \/ (\E it \in Items : Publish(s, it) \/ NotifyOne(s, it)))
         \/ (\E p \in Pats : Reparse(p))
         \/ (\E c \in BOOLEAN : Restart(c))
-        \/ EventLoopTick \/ TickCancel \/ TickLock \/ TickTryFail \/ TickArm \/ TickLocked
+        \/ EventLoopTick \/ TickCancel \/ TickLock \/ TickTryFail \/ TickArm \/ TickRetryOk \/ TickRetryFail \/ TickLocked \/ TickStoreNotify \/ TickSpawn
         \/ RunBegin \/ ResetItem \/ ResetDone \/ TScanStart \/ TScanItem
         \/ RescoreCheck \/ (\E k \in 1..N : RescoreOne(k) \/ RescorePh({k})) \/ RescoreDone
         \/ RetryItem \/ RetryDone \/ (\E it \in Items : ScanItem(it)) \/ ScanDone
